@@ -18,6 +18,6 @@ CONSTANTS
   FixD21 = TRUE
   Export = FALSE
 VIEW view
-INVARIANTS Refines ScanComplete Accounting BoundedAfterCompaction SingleVersion CfRegistry ExportInv
+INVARIANTS Refines ScanComplete Accounting BoundedAfterCompaction NoDeadTables SingleVersion CfRegistry ExportInv
 PROPERTIES CompactionSafe CompactionProgress
 CHECK_DEADLOCK FALSE
